@@ -1,12 +1,15 @@
 (* C08 correspondence: every entry point of the implementation is compared with the spec of
    Model/Feas.v evaluated on the coefficients the CQM reports (and with the code-shaped models). *)
 From Coq Require Import List ZArith QArith Qcanon Bool Arith.
-From Dimod Require Import Base.Util Model.Poly Model.Feas.
+From Dimod Require Import Base.Util Model.Poly Model.Samples Model.Feas Model.EnergyCy Model.FeasCy.
 Import ListNotations.
 Open Scope Qc_scope.
 
+(* The SAMPLE of a row is what the caller passed in: column labels k_ls (in the order given, any
+   permutation of the model's variables, possibly with columns the model does not know; for an
+   unlabelled matrix the labels are 0, 1, ...) and the row's values r_vals in that order. *)
 Record row := mkRow {
-  r_sample : list (label * Qc);
+  r_vals : list Qc;
   r_data : list (Qc * Qc * Qc * Qc);        (* iter_constraint_data: lhs_energy, rhs_energy, activity, violation *)
   r_viol : list (nat * Qc);                 (* violations() *)
   r_viol_clip : list (nat * Qc);            (* iter_violations(clip=True) *)
@@ -18,8 +21,12 @@ Record row := mkRow {
 Record xrow := mkXRow { x_sample : list (label * Qc); x_sat : list bool; x_feas : bool; x_energy : Qc }.
 
 Record case := mkCase {
+  k_n : nat;                (* number of label codes in use *)
   k_obj : obs;
   k_cons : list (obs * sense * Qc * option (Qc * penalty));
+  k_x : xcqm;               (* raw state: parent.variables, expression indices and local biases *)
+  k_ls : list label;        (* column labels of the sample matrix *)
+  k_obj_en : list Qc;       (* cqm.objective.energies(samples_like) *)
   k_atol : Qc; k_rtol : Qc;
   k_cf_strict : bool;       (* compare check_feasible with the spec on every row *)
   k_rows : list row;
@@ -42,8 +49,18 @@ Definition q4_eqb (a b : Qc * Qc * Qc * Qc) : bool :=
 Definition no_soft_violated (atol rtol : Qc) (m : cqm) (s : sample) : bool :=
   forallb (fun k => satisfied atol rtol k s) (filter is_soft (m_cons m)).
 
+(* the raw state stands for the coefficients the views report *)
+Definition raw_tied (n : nat) (xm : xcqm) (o : obs) (lhs : list obs) : bool :=
+  xcqm_wfb xm
+  && poly_coeff_eqb n (xexpr_poly_labels (xm_obj xm) (xm_pvars xm)) (obs_poly o)
+  && (length (xm_cons xm) =? length lhs)%nat
+  && forallb (fun ko => poly_coeff_eqb n (xexpr_poly_labels (xc_lhs (fst ko)) (xm_pvars xm)) (obs_poly (snd ko)))
+             (combine (xm_cons xm) lhs).
+
+Definition lhs_of (d : Qc * Qc * Qc * Qc) : Qc := let '(a, _, _, _) := d in a.
+
 Definition row_ok (c : case) (m : cqm) (r : row) : bool :=
-  let s := sample_of_list (r_sample r) in
+  let s := row_sample (k_ls c) (r_vals r) in
   let atol := k_atol c in let rtol := k_rtol c in
   (* spec *)
   list_eqb nq_eqb (r_viol r) (spec_violations m s)
@@ -60,7 +77,11 @@ Definition row_ok (c : case) (m : cqm) (r : row) : bool :=
   && list_eqb nq_eqb (r_viol r) (iter_violations m s false false)
   && list_eqb nq_eqb (r_viol_clip r) (iter_violations m s false true)
   && list_eqb nq_eqb (r_viol_skip r) (iter_violations m s true false)
-  && Bool.eqb (r_check_feasible r) (check_feasible m s rtol atol).
+  && Bool.eqb (r_check_feasible r) (check_feasible m s rtol atol)
+  (* code-shaped evaluation of the left-hand sides: raw expression state, label lookups in the matrix's columns *)
+  && option_eqb (list_eqb q4_eqb) (option_map (map datum_tuple)
+                   (x_iter_constraint_data (xm_pvars (k_x c)) (xm_cons (k_x c)) (k_ls c) (r_vals r)))
+                (Some (r_data r)).
 
 Definition vec_ok (atol rtol : Qc) (m : cqm) (samples : list sample) (garb : list bool)
                   (en : list Qc) (sat : list (list bool)) (feas : list bool) : bool :=
@@ -77,9 +98,17 @@ Definition xrow_ok (c : case) (m : cqm) (r : xrow) : bool :=
 
 Definition check (c : case) : bool :=
   let m := case_cqm c in
-  let samples := map (fun r => sample_of_list (r_sample r)) (k_rows c) in
+  let samples := map (fun r => row_sample (k_ls c) (r_vals r)) (k_rows c) in
   let n := length (m_cons m) in
-  forallb (row_ok c m) (k_rows c)
+  raw_tied (k_n c) (k_x c) (k_obj c) (map (fun k => fst (fst (fst k))) (k_cons c))
+  && forallb (row_ok c m) (k_rows c)
+  (* the objective column: definition and code-shaped *)
+  && list_eqb Qc_eqb (k_obj_en c) (map (energy (m_obj m)) samples)
+  && option_eqb (pair_eqb (list_eqb Qc_eqb) (list_eqb (list_eqb Qc_eqb)))
+       (x_vec_inputs (k_x c) (k_ls c) (map r_vals (k_rows c)))
+       (Some (k_obj_en c,
+              map (fun j => map (fun r => lhs_of (nth j (r_data r) (0, 0, 0, 0))) (k_rows c))
+                  (seq 0 (length (k_cons c)))))
   && forallb (xrow_ok c m) (k_exact c)
   (* vectorised model, with the uninitialised memory all-true and all-false *)
   && vec_ok (k_atol c) (k_rtol c) m samples (repeat true n)
@@ -88,3 +117,19 @@ Definition check (c : case) : bool :=
             (map r_energy (k_rows c)) (map r_sat (k_rows c)) (map r_feas (k_rows c))
   && vec_ok (k_atol c) (k_rtol c) m (map (fun r => sample_of_list (x_sample r)) (k_exact c)) (repeat true n)
             (map x_energy (k_exact c)) (map x_sat (k_exact c)) (map x_feas (k_exact c)).
+
+(* ---- a label of the model missing from the samples: which entry points raise ---- *)
+Record rcase := mkRCase {
+  rk_n : nat; rk_obj : obs; rk_lhs : list obs;
+  rk_x : xcqm; rk_ls : list label; rk_rows : list (list Qc);
+  rk_ps_raised : list bool;       (* per row: violations() / iter_constraint_data raised ValueError *)
+  rk_vec_raised : bool }.         (* from_samples_cqm raised ValueError *)
+
+Definition is_none {A} (o : option A) : bool := match o with None => true | Some _ => false end.
+
+Definition check_raise (c : rcase) : bool :=
+  let xm := rk_x c in
+  raw_tied (rk_n c) xm (rk_obj c) (rk_lhs c)
+  && list_eqb Bool.eqb (rk_ps_raised c)
+       (map (fun row => is_none (x_iter_constraint_data (xm_pvars xm) (xm_cons xm) (rk_ls c) row)) (rk_rows c))
+  && Bool.eqb (rk_vec_raised c) (is_none (x_vec_inputs xm (rk_ls c) (rk_rows c))).
